@@ -45,6 +45,15 @@ CHECKS.update({
         ref="DESIGN.md section 4 C15"),
 })
 
+CHECKS.update({
+    "C16": dict(
+        technique="shape theorem for lexicographic orders (AST normal forms of __eq__/__hash__/__ge__/supports), fall-through (TOTAL) analysis on the CFG, key-agreement and sort-after-append rules, regular-language emptiness (NFA product) for the entry-point name codec",
+        text="The order axioms, consistency with ==/hash and the `supports` relation are decided for ALL references by recognising the lexicographic / conjunctive normal form rather than enumerating triples; "
+             "registration/resolution order and the unambiguity of the name codec (for all strings, via automata) are decided structurally.",
+        note="Trusted: functools.total_ordering, list.sort, total order of str and int tuples. Nothing else of the property is left undecided.",
+        ref="DESIGN.md section 4 C16"),
+})
+
 REASON_PENDING = "check not built yet (build in progress; see DESIGN.md section 4 for the planned static rules)"
 NOT_APPLICABLE = {}
 
